@@ -211,18 +211,38 @@ theorem C05_from_cfg (cfg : Cfg) (fresh : String) (n : Name) (as : List Attr)
   · refine ⟨fromAttr cfg, ?_, rfl, hfrom, fun _ => rfl⟩
     simp [hfound, hfrom]
 
-/-- the source of the encoder's address as the repository has it: the one assignment to the
-`from` field of a stanzaEncoder (regenerated: function and assigned expression) -/
-def genFromSource : FromSource :=
-  match Generated.C05.encoderFrom with
-  | some [(_, e)] => FromSource.ofExpr e
+/-- the addresses of the probe sessions: each of the four is named after its role -/
+def probeAddrs : Addrs := ⟨"inTo", "inFrom", "outFrom", "outTo"⟩
+
+def FromSource.ofRole : String → FromSource
+  | "inTo" => .localAddr
+  | "inFrom" => .remoteAddr
+  | "outFrom" => .outFrom
+  | "outTo" => .outTo
   | _ => .other
 
-/-- regenerated: there is exactly one assignment to the encoder's `from` field, what it assigns is
-the session's local address (`s.LocalAddr()` or the field that method returns), and
-`LocalAddr()` returns the `to` of the input stream info -/
+/-- the source of the encoder's address as the repository has it: what a real received
+server-to-server session with four different addresses stamps on an outgoing stanza
+(regenerated PROBE fact: `harness facts` negotiates the sessions and reads the wire) -/
+def genFromSource : FromSource :=
+  match Generated.C05.fromProbe with
+  | some rows =>
+    match rows.find? (fun r => r.1 == "received" && r.2.1 == nsServer) with
+    | some r => FromSource.ofRole r.2.2.2
+    | none => .other
+  | none => .other
+
+/-- regenerated probe: on initiated and received sessions, client and server-to-server
+namespace, with four pairwise different addresses, `LocalAddr()` reports the `to` of the input
+stream info and the `from` the encoder stamps is exactly what the model's `sessionCfg` says
+for the probed source — the local address on server-to-server streams, nothing on client
+streams -/
 theorem C05_gen_from_source :
-    genFromSource = .localAddr ∧ Generated.C05.localAddrReturns = some "s.in.Info.To" := by decide
+    genFromSource = .localAddr ∧
+    ∃ rows, Generated.C05.fromProbe = some rows ∧ rows.length = 4 ∧
+      ∀ r ∈ rows, r.2.2.1 = probeAddrs.localAddr ∧
+        (sessionCfg genFromSource r.2.1 probeAddrs).from_ = r.2.2.2 := by
+  refine ⟨by decide, _, rfl, by decide, by decide⟩
 
 /-- **server-to-server streams**: whatever addresses the session holds (told beforehand or
 learnt from the peer's stream header, initiated or received), when it reports a non-empty
